@@ -180,7 +180,7 @@ Proof.
         -- right. right. right. apply (tracked_keep fa st); [exact Hfe | exact H | exact I | exact B1].
       * (* send *)
         destruct Hse as (_ & ->). right.
-        destruct (quiet_eff st SA (EvSend data) e' ltac:(left; eexists; reflexivity) He) as ((Q1 & _ & _ & Q4 & _ & _ & _ & Q8) & Qo).
+        destruct (quiet_eff st SA (EvSend data) e' ltac:(left; eexists; reflexivity) He) as ((Q1 & _ & _ & Q4 & _ & _ & _ & Q8 & _) & Qo).
         split; [exact Hsy'|]. split; [exact Hdk'|].
         split; [unfold net_sock; cbn [net_set net_get n_a]; rewrite Q1; exact Hsa|].
         destruct HPh as [(B1 & B2 & B3) | [(B1 & B2) | [(B1 & B2 & B3) | B1]]].
@@ -191,7 +191,7 @@ Proof.
         -- right. right. right. apply (tracked_keep fa st); [exact Hfe | exact H | exact I | exact B1].
       * (* recv *)
         destruct Hse as (_ & ->). right.
-        destruct (quiet_eff st SA (EvRecv (Z.max 0 n)) e' ltac:(right; eexists; reflexivity) He) as ((Q1 & _ & _ & Q4 & _ & _ & _ & Q8) & Qo).
+        destruct (quiet_eff st SA (EvRecv (Z.max 0 n)) e' ltac:(right; eexists; reflexivity) He) as ((Q1 & _ & _ & Q4 & _ & _ & _ & Q8 & _) & Qo).
         split; [exact Hsy'|]. split; [exact Hdk'|].
         split; [unfold net_sock; cbn [net_set net_get n_a]; rewrite Q1; exact Hsa|].
         destruct HPh as [(B1 & B2 & B3) | [(B1 & B2) | [(B1 & B2 & B3) | B1]]].
@@ -262,7 +262,7 @@ Proof.
         -- right. right. right. apply (tracked_keep fa st); [exact Hfe | exact H | exact I | exact B1].
       * (* send at B: refused in LISTEN / SYN-RECEIVED *)
         destruct Hse as (_ & ->). right.
-        destruct (quiet_eff st SB (EvSend data) e' ltac:(left; eexists; reflexivity) He) as ((Q1 & _ & _ & Q4 & _ & _ & _ & Q8) & Qo).
+        destruct (quiet_eff st SB (EvSend data) e' ltac:(left; eexists; reflexivity) He) as ((Q1 & _ & _ & Q4 & _ & _ & _ & Q8 & _) & Qo).
         split; [exact Hsy'|]. split; [exact Hdk'|]. split; [exact Hsa'|].
         destruct HPh as [(B1 & B2 & B3) | [(B1 & B2) | [(B1 & B2 & B3) | B1]]].
         -- left. split; [unfold net_sock; cbn [net_set net_get n_b]; rewrite Q1; exact B1|]. split; [exact B2|]. rewrite Hnow. exact B3.
@@ -273,7 +273,7 @@ Proof.
         -- right. right. right. apply (tracked_keep fa st); [exact Hfe | exact H | exact I | exact B1].
       * (* recv at B *)
         destruct Hse as (_ & ->). right.
-        destruct (quiet_eff st SB (EvRecv (Z.max 0 n)) e' ltac:(right; eexists; reflexivity) He) as ((Q1 & _ & _ & Q4 & _ & _ & _ & Q8) & Qo).
+        destruct (quiet_eff st SB (EvRecv (Z.max 0 n)) e' ltac:(right; eexists; reflexivity) He) as ((Q1 & _ & _ & Q4 & _ & _ & _ & Q8 & _) & Qo).
         split; [exact Hsy'|]. split; [exact Hdk'|]. split; [exact Hsa'|].
         destruct HPh as [(B1 & B2 & B3) | [(B1 & B2) | [(B1 & B2 & B3) | B1]]].
         -- left. split; [unfold net_sock; cbn [net_set net_get n_b]; rewrite Q1; exact B1|]. split; [exact B2|]. rewrite Hnow. exact B3.
